@@ -14,7 +14,8 @@
                                                                how the caller made it); <entry> = Parse|ParseAny|MustParse|StrictParse, <in> = nil|nilptr|ok|bad;
                                                                observation = "<o1> / <o2> / … ctx=same" (a step that differs from the same parse through a
                                                                fresh context carries "!fresh=<that outcome>")
-    c03 csib <tuple|object|array> <ctx|none> / Child <in> <rule> <admitsNil> <ownNilPath> <op>* / …   → the same steps as children of one container parse
+    c03 csib <tuple|object|array> <ctx|none> / Child <in> <rule> <admitsNil> <ownNilPath> [W=<stack>] <op>* / …   → the same steps as children of one container parse
+                                                               (W=<stack>: the child is the schema under that wrapper chain; in a successful tuple it shows as "ok:<term>")
   op := Optional | Nilable | Nullish | NonOptional | Default:v|i | DefaultFunc:v|i | Prefault:v|i | PrefaultFunc:v|i | Overwrite | Refine
   The raw line is "<op line> @ <implementation outcome>"; the spec verdict echoes the implementation's
   outcome when `specNil` admits it and is "spec-rejects:<expected>" otherwise.
@@ -68,13 +69,19 @@ structure StepD where
   adm : Bool
   own : Bool
   h : List Op
+  ws : List W := []   -- csib: the child is the schema under this wrapper chain (`W=<stack>` token)
 
 def parseStepD (seg : String) : Option StepD :=
   match (seg.splitOn " ").filter (· ≠ "") with
-  | entry :: inp :: rule :: adm :: own :: ops =>
-    match ops.mapM parseOp with
-    | some h => some ⟨entry, inp, if rule == "nilable" then .nilableFlag else .ptrTy, adm == "1", own == "1", h⟩
-    | none => none
+  | entry :: inp :: rule :: adm :: own :: rest =>
+    let (wtok, ops) := rest.partition (·.startsWith "W=")
+    let ws := match wtok with
+      | [] => some []
+      | [t] => parseStack (String.ofList (t.toList.drop 2))
+      | _ => none
+    match ops.mapM parseOp, ws with
+    | some h, some ws => some ⟨entry, inp, if rule == "nilable" then .nilableFlag else .ptrTy, adm == "1", own == "1", h, ws⟩
+    | _, _ => none
   | _ => none
 
 def StepD.input (d : StepD) : In :=
@@ -126,9 +133,9 @@ def handleSeq (init : String) (segs : List String) (impl : Option String) : Stri
                     | _ => ([], "?"))
       | none => ([], "?")
     let implAt := fun (k : Nat) => (iSteps.getD k none)
-    -- StrictParse's nil outcome against the documented one is C09's subject (Parse = StrictParse); here such a step
-    -- takes part in the sequence and is judged for context independence only. Types with a private nil path echo.
-    let echo := fun (d : StepD) => d.own || d.entry == "StrictParse"
+    -- StrictParse steps (a typed nil pointer / a value of the static input type) are modelled and judged like Parse steps:
+    -- `specNil` on the step's own history. Types with a private nil path echo.
+    let echo := fun (d : StepD) => d.own
     let idx := List.range ds.length
     let ms := idx.map fun k =>
       match ds[k]?, run.2[k]? with
@@ -139,7 +146,7 @@ def handleSeq (init : String) (segs : List String) (impl : Option String) : Stri
       | some d =>
         (match implAt k with
          | none => "-"
-         | some io => if d.entry == "StrictParse" then stripMark io else specStepStr d (stripMark io))
+         | some io => specStepStr d (stripMark io))
       | none => "?"
     let cm := if run.1 == c0 then "same" else "changed"
     " / ".intercalate ms ++ " ctx=" ++ cm ++ "\t" ++ (if impl.isSome then " / ".intercalate ss ++ " ctx=same" else "-")
@@ -176,7 +183,13 @@ def handleSib (kind init : String) (segs : List String) (impl : Option String) :
         if d.own then (implAt k).getD "-" else
         (match r with
          | .err o => if kind == "array" || d.inp == "ok" || d.inp == "bad" then "err" else renderSibErr o
-         | .ok _ => if kind == "tuple" && !anyErr then renderStep d r else "ok")
+         | .ok _ =>
+           if kind == "tuple" && !anyErr then
+             (if d.ws.isEmpty || d.inp == "ok" || d.inp == "bad" then renderStep d r
+              else match ((wrap (applyAll d.rule {} d.h) d.ws).parse d.adm d.input).1 with
+                | .ok v => "ok:" ++ renderV v
+                | .err o => renderSibErr o)
+           else "ok")
       | _, _ => "?"
     let ss := idx.map fun k =>
       match ds[k]? with
@@ -188,7 +201,13 @@ def handleSib (kind init : String) (segs : List String) (impl : Option String) :
            let adm := admissible d
            let okAdm := adm.any isSuccess
            let errs := (adm.filter (fun o => !isSuccess o)).map fun o => if kind == "array" then "err" else renderSibErr o
-           if io == "ok" then (if okAdm then io else "spec-rejects:expected " ++ " | ".intercalate errs)
+           -- a wrapped child seen in a successful tuple/array: the term the statement admits (`specWrapped`: a default goes
+           -- through no Transform callback, everything else through every wrapper once, in order)
+           let okTerms := adm.filterMap fun o => match (specWrapped o d.ws).1 with
+             | .ok v => some ("ok:" ++ renderV v)
+             | .err _ => none
+           if io.startsWith "ok:" then (if okTerms.contains io then io else "spec-rejects:expected " ++ " | ".intercalate (okTerms ++ errs))
+           else if io == "ok" then (if okAdm then io else "spec-rejects:expected " ++ " | ".intercalate errs)
            else if errs.contains io then io
            else match parseOutcome io with
              | some o => if isSuccess o && specNil d.adm d.h o then io
@@ -197,11 +216,6 @@ def handleSib (kind init : String) (segs : List String) (impl : Option String) :
       | none => "?"
     let cm := if run.1 == c0 then "same" else "changed"
     " / ".intercalate ms ++ " ctx=" ++ cm ++ "\t" ++ (if impl.isSome then " / ".intercalate ss ++ " ctx=same" else "-")
-
-def parseKind : String → Kind
-  | "record" => .record
-  | "structp" => .structp
-  | _ => .plain
 
 /-- The value parser as the `val` lines abstract it: an input is (accepted by the schema as constructed, verdict
     depends on the type's own configuration); with the configuration gone a dependent input's verdict flips. -/
@@ -221,7 +235,7 @@ def handleLine (line : String) : String :=
     match ops.mapM parseOp with
     | none => "bad-op"
     | some h =>
-      let s := applyAllC (parseKind kind) .nilableFlag false (⟨true, false, {}⟩ : SchC Bool) h
+      let s := applyAllC dropsCfg (kindOfName kind) .nilableFlag false (⟨true, false, {}⟩ : SchC Bool) h
       (if s.cfg then "carried" else "dropped") ++ "\tcarried"
   | "c03" :: "val" :: kind :: okbad :: dep :: own :: ops =>
     -- a non-nil input: the value parser under the configuration the history leaves (`ctxStepX`); an input whose verdict
@@ -231,9 +245,9 @@ def handleLine (line : String) : String :=
     | some h =>
       let s0 : SchC Bool := ⟨true, false, {}⟩
       let x : Bool × Bool := (okbad == "ok", dep == "1")
-      let a := (ctxStepX depValidate {} (applyAllC (parseKind kind) .nilableFlag false s0 h) (some x)).2
+      let a := (ctxStepX depValidate {} (applyAllC dropsCfg (kindOfName kind) .nilableFlag false s0 h) (some x)).2
       let b := (ctxStepX depValidate {} s0 (some x)).2
-      -- own = 1: Record's pointer variants (known finding: every Parse fails in a type-local conversion) echo
+      -- (own: no row has a nil path outside the engine model any more — f5847cc — the token is always 0)
       (if own == "1" then impl.getD "-" else if a == b then "same" else "diff:verdict") ++ "\tsame"
   | "c03" :: "wval" :: stack :: okbad :: ops =>
     match parseStack stack, ops.mapM parseOp with
